@@ -93,6 +93,9 @@ func (a *Account) AddToBalance(v *big.Int) error {
 	if err := a.sh.dep("add-balance"); err != nil {
 		return err
 	}
+	if a.sh.concurrent {
+		runtime.Gosched() // see SaveKeyValue
+	}
 	a.mu.Lock()
 	defer a.mu.Unlock()
 	a.sh.mutated()
@@ -104,6 +107,9 @@ func (a *Account) AddToBalance(v *big.Int) error {
 func (a *Account) ClaimDeveloperRewards([]byte) (*big.Int, error) {
 	if err := a.sh.dep("claim-rewards"); err != nil {
 		return nil, err
+	}
+	if a.sh.concurrent {
+		runtime.Gosched() // see SaveKeyValue
 	}
 	a.mu.Lock()
 	defer a.mu.Unlock()
@@ -123,6 +129,9 @@ func (a *Account) GetDeveloperReward() *big.Int {
 func (a *Account) ChangeOwnerAddress(_ []byte, newOwner []byte) error {
 	if err := a.sh.dep("change-owner"); err != nil {
 		return err
+	}
+	if a.sh.concurrent {
+		runtime.Gosched() // see SaveKeyValue
 	}
 	a.mu.Lock()
 	defer a.mu.Unlock()
@@ -145,6 +154,9 @@ func (a *Account) GetOwnerAddress() []byte {
 }
 
 func (a *Account) SetUserName(u []byte) {
+	if a.sh.concurrent {
+		runtime.Gosched() // see SaveKeyValue
+	}
 	a.mu.Lock()
 	defer a.mu.Unlock()
 	a.sh.mutated()
@@ -488,6 +500,41 @@ func NewShard(cfg ShardConfig) (*Shard, error) {
 	}
 	s.Factory, s.Container = f, c
 	return s, nil
+}
+
+// ReplaceFn puts a NEW instance of a built-in function into the container in place of the one the factory put there (a
+// node may do that, e.g. to wrap or re-create a function): the instance comes from a spare container that a second
+// factory builds over the same shard, constructed with the schedule now in force.  From then on the first factory's
+// schedule changes have to reach the new instance like any other entry of the container.
+func (s *Shard) ReplaceFn(name string) error {
+	cfg := s.Cfg
+	gas := cfg.Gas
+	if s.accepted != nil {
+		gas = s.accepted
+	}
+	dns := map[string]struct{}{}
+	for _, d := range cfg.DNS {
+		dns[string(d)] = struct{}{}
+	}
+	f, err := builtInFunctions.NewBuiltInFunctionsFactory(builtInFunctions.ArgsCreateBuiltInFunctionContainer{
+		GasMap: copyGas(gas), MapDNSAddresses: dns, EnableUserNameChange: cfg.EnableNameChange, Marshalizer: s.Marsh, Accounts: s,
+		ShardCoordinator: &coordinator{self: cfg.Self, n: cfg.NShards}, EpochNotifier: s.notifier, ESDTNFTImprovementV1ActivationEpoch: cfg.ActivationEpoch,
+	})
+	if err != nil {
+		return err
+	}
+	spare, err := f.CreateBuiltInFunctionContainer()
+	if err != nil {
+		return err
+	}
+	if err := builtInFunctions.SetPayableHandler(spare, &payOracle{sh: s}); err != nil {
+		return err
+	}
+	inst, err := spare.Get(name)
+	if err != nil {
+		return err
+	}
+	return s.Container.Replace(name, inst)
 }
 
 func (s *Shard) GasScheduleChange(g map[string]map[string]uint64) {
